@@ -15,6 +15,8 @@ Univ == { MkPoint(P3(1, 1, 1)), MkPoint(P3(2, 2, 2)), MkPoint(P3(0, 1, 1)), MkPo
        MkLine(P3(1, 1, 1), V3(1, 0, 0)), MkLine(P3(1, 1, 1), V3(1, 1, 1)), MkLine(P3(0, 0, 0), V3(1, 0, 0)), MkLine(P3(0, 0, 3), V3(1, 0, 0)), MkLine(P3(0, 1, 0), V3(1, 1, 0)),
        MkHalfLine(P3(1, 1, 1), V3(0, 0, 1)), MkHalfLine(P3(1, 1, 1), V3(0, 0, -1)), MkHalfLine(P3(1, 1, 3), V3(0, 0, -1)), MkHalfLine(P3(2, 2, 2), V3(1, 1, 1)), MkHalfLine(P3(-1, 1, 1), V3(1, 0, 0)), MkHalfLine(P3(1, 1, 1), V3(-1, -1, 0)),
        MkSegment(P3(0, 0, 0), P3(2, 2, 2)), MkSegment(P3(1, 1, 1), P3(2, 2, 2)), MkSegment(P3(1, 1, 1), P3(1, 1, 3)), MkSegment(P3(1, 1, -1), P3(1, 1, 3)), MkSegment(P3(0, 0, 0), P3(2, 0, 0)), MkSegment(P3(-1, 1, 1), P3(1, 1, 1)), MkSegment(P3(1, 0, 1), P3(1, 2, 1)),
+       \* in the plane of the square / of the cube's bottom face: its carrier line grazes the corner (2, 0, 0) only, and the segment stops short of it
+       MkSegment(P3(3, 1, 0), P3(4, 2, 0)),
        MkPlane(P3(0, 0, 1), V3(0, 0, 1)), MkPlane(P3(1, 1, 1), V3(1, 1, 1)), MkPlane(P3(0, 0, 0), V3(0, 0, 1)), MkPlane(P3(0, 0, 0), V3(1, -1, 0)), MkPlane(P3(0, 0, 2), V3(0, 0, 1)),
        Polygon("sq", 2), HullPolygon({P3(2, 0, 0), P3(0, 2, 0), P3(0, 0, 2)}), HullPolygon({P3(0, 0, 1), P3(2, 0, 1), P3(2, 2, 1), P3(0, 2, 1)}), Polygon("hexObl", 1), Translate(Polygon("stripH", 1), V3(0, 0, 1)), Translate(Polygon("stripV", 1), V3(0, 0, 1)),
        Polyhedron("cube", 2), Polyhedron("tet2", 2), Polyhedron("octa", 1), Translate(Polyhedron("cube", 2), V3(1, 1, 1)) }
